@@ -6,7 +6,7 @@
 (* documented verdict (d < Min(W, EffDict(D))) and the named relaxation.      *)
 (* The concretiser writes W bytes and one match with that distance through    *)
 (* the raw LZMA1 decoder (dict_size = D) and the .lzma decoder.               *)
-EXTENDS Lz, TLC, Json
+EXTENDS Lz, Lzma2, TLC, Json
 CONSTANT DeclSizes
 Near(x) == {y \in {x - 1, x, x + 1} : y >= 1}
 Cases == UNION {{[D |-> D, W |-> W, d |-> d] :
@@ -20,6 +20,9 @@ Row(c) == [D |-> c.D, W |-> c.W, d |-> c.d, eff |-> EffDictOf(c.D),
 ASSUME \A c \in Cases : PrintT(<<"PLAN", ToJson(Row(c))>>)
 ASSUME \A c \in Cases : Row(c).format => Row(c).impl            \* the implementation is never stricter
 ASSUME \A c \in Cases : (Row(c).impl /\ ~Row(c).format) <=> Row(c).relaxed
+(* second table: every value of the LZMA2 properties byte *)
+ASSUME \A b \in 0..255 : PrintT(<<"PLAN", ToJson([props |-> b, valid |-> PropsByteValid(b), lc |-> PropsLc(b), lp |-> PropsLp(b), pb |-> PropsPb(b)])>>)
+ASSUME Cardinality({b \in 0..255 : PropsByteValid(b)}) = 75
 VARIABLE x
 Spec == x = 0 /\ [][UNCHANGED x]_x
 =============================================================================
